@@ -17,7 +17,7 @@ pub fn batteries(model: &Model, uni: bool) -> Vec<Query> {
     let mut qs = scan_queries();
     let probes = if model.len() <= 64 { model.probes() } else { crate::qcheck::reduced_reps(model, 20) };
     qs.extend(seek_queries(&probes, &[CursorMode::Fresh, CursorMode::Reset]));
-    let reps = if model.len() <= 8 { model.class_probes() } else { crate::qcheck::reduced_reps(model, 4) };
+    let reps = if model.len() <= 2 { model.class_probes() } else { crate::qcheck::reduced_reps(model, 3) };
     qs.extend(range_queries(&reps));
     let prefixes = if uni { crate::c05::universe_prefixes(model) } else { crate::c05::key_prefixes(model) };
     qs.extend(prefix_queries(&prefixes));
@@ -60,6 +60,13 @@ pub fn check_spec(spec: &FileSpec, only: Option<&Query>) -> Result<(u64, usize),
     let uni = matches!(spec.entries, EntrySpec::Universe { .. });
     let qs = match only {
         Some(q) => vec![q.clone()],
+        // every query decompresses the blocks it touches again: compressed files get an evenly
+        // strided sample of the battery
+        None if spec.cfg.codec != 0 => {
+            let all = batteries(&model, uni);
+            let stride = (all.len() / 60).max(1);
+            all.into_iter().step_by(stride).collect()
+        }
         None => batteries(&model, uni),
     };
     let mut yielded = 0u64;
@@ -68,7 +75,7 @@ pub fn check_spec(spec: &FileSpec, only: Option<&Query>) -> Result<(u64, usize),
         let a = run_query(&v1, q);
         let b = run_query(&v2, q);
         // the V1 file served in short, interrupted pieces answers the same (sampled queries)
-        if qi % 7 == 0 {
+        if qi % 97 == 0 && v1.len() < 20_000 {
             let a_short = crate::query::run_query_short(&v1, q);
             if a_short != a {
                 return Err(("differs".into(), format!("{}: the V1 file answers differently when its source serves short and interrupted reads", q.brief()), Some(q.clone())));
@@ -163,8 +170,12 @@ pub fn run(tier: Tier) -> i32 {
     let mut specs: Vec<FileSpec> = Vec::new();
     let seqs = shape_seqs(tier.pick(3, 4));
     // all block sizes x intervals at index_levels 0, codec None; every codec at two layouts
-    for b in BLOCK_SIZES {
-        for iv in INTERVALS {
+    // quick: a 3 x 3 subgrid of block sizes and intervals (they shape what the writer emits, not how
+    // a V1 trailer is read); thorough: the full 9 x 4 grid
+    let bsizes: Vec<Option<usize>> = if tier == Tier::Quick { vec![None, Some(1024), Some(usize::MAX)] } else { BLOCK_SIZES.to_vec() };
+    let ivs: Vec<Option<usize>> = if tier == Tier::Quick { vec![None, Some(1), Some(3)] } else { INTERVALS.to_vec() };
+    for b in bsizes {
+        for iv in ivs.clone() {
             for s in &seqs {
                 specs.push(spec_shapes(FileCfg::layout(b, iv, 0), s));
             }
